@@ -32,6 +32,7 @@ func init() {
 }
 
 func runC17(c *Ctx) {
+	c17UseAfterCheck(c)
 	c17Options(c)
 	c17ConstMetrics(c)
 	c17Mirror(c)
@@ -341,6 +342,40 @@ func c17Mirror(c *Ctx) {
 					"interface gauges swapped or fed from the wrong source")
 			}
 		}
+		// per iteration (path-sensitive): the RA and misconfigurations handed to collectMetrics are those of THIS
+		// interface's RouterAdvertisement call when it advertises, and nothing (nil) when it does not
+		nIter := 0
+		for _, p := range c.pathsO("R-C17-3", cs, an.PathOpts{EmitCut: true}) {
+			calls := callsOnPath(p, func(cc *ssa.CallCommon) bool { return an.CallIs(cc, PkgCorerad, "", "collectMetrics") })
+			if len(calls) == 0 {
+				continue
+			}
+			nIter++
+			adv, tested := false, false
+			for _, a := range p.Atoms {
+				if a.Cond.IsField("Advertise") {
+					adv, tested = a.Pos, true
+				}
+			}
+			flds := raHeader(p.Of(calls[0].Common().Args[1]))
+			ok := flds != nil && tested
+			fact := "metricsContext not a literal"
+			if flds != nil {
+				ra, ms := flds["Advertisement"], flds["Misconfigurations"]
+				fact = fmt.Sprintf("Advertisement=%v Misconfigurations=%v", ra, ms)
+				if adv {
+					rb, ri := stripExtractP(ra)
+					mb, mi := stripExtractP(ms)
+					ok = ok && ri == 0 && mi == 1 && exprCallIs(rb, PkgConfig, "Interface", "RouterAdvertisement") && sameValue(rb, mb)
+				} else {
+					ok = ok && (ra == nil || exprIsNil(ra) || exprIsZero(ra)) && (ms == nil || exprIsNil(ms) || exprIsZero(ms))
+				}
+			}
+			c.R.Check(ok, "R-C17-3", fmt.Sprintf("%s:per-interface-ra@advertise=%v", c.fname(cs), adv), c.fname(cs), c.pos(calls[0].Pos()), fact,
+				"an advertising interface reports the RA it would send now; a non-advertising interface reports no RA (nothing carried over from another interface)",
+				"samples of one interface's RA are exported under another interface")
+		}
+		c.R.Check(nIter >= 2, "R-C17-3", c.fname(cs)+":iterations", c.fname(cs), c.pos(cs.Pos()), fmt.Sprintf("%d iteration path(s)", nIter), ">= 2", "anchor-missing")
 		// State errors become ScrapeErrors
 		for _, p := range c.pathsO("R-C17-6", cs, an.PathOpts{EmitCut: true}) {
 			if p.Panic != nil {
@@ -694,4 +729,97 @@ func c17Gating(c *Ctx) {
 			}
 		}
 	}
+}
+
+// c17UseAfterCheck (R-C17-6): wherever an RA is generated for a scrape or an
+// API request, the RA value is used (passed on, dereferenced) only after the
+// generation error has been tested on that path — otherwise a failure to
+// generate (unprepared plugin, address lookup error) crashes the request.
+func c17UseAfterCheck(c *Ctx) {
+	n := 0
+	for _, fn := range c.srcFuncs() {
+		if fn.Pkg == nil || (fn.Pkg.Pkg.Path() != PkgCrhttp && fn.Pkg.Pkg.Path() != PkgCorerad) {
+			continue
+		}
+		var gens []*ssa.Call
+		for _, ci := range an.CallsIn(fn) {
+			if call, ok := ci.(*ssa.Call); ok && (an.CallIs(&call.Call, PkgConfig, "Interface", "RouterAdvertisement") || an.CallIs(&call.Call, PkgCorerad, "Advertiser", "buildRA")) {
+				gens = append(gens, call)
+			}
+		}
+		if len(gens) == 0 {
+			continue
+		}
+		ps := c.pathsO("R-C17-6", fn, an.PathOpts{EmitCut: true})
+		for _, g := range gens {
+			n++
+			var raVal, errVal ssa.Value
+			nres := g.Call.Signature().Results().Len()
+			if g.Referrers() != nil {
+				for _, r := range *g.Referrers() {
+					if ex, ok := r.(*ssa.Extract); ok {
+						if ex.Index == 0 {
+							raVal = ex
+						}
+						if ex.Index == nres-1 {
+							errVal = ex
+						}
+					}
+				}
+			}
+			if raVal == nil {
+				continue
+			}
+			bad := ""
+			for _, p := range ps {
+				if !p.Visited(g.Block()) {
+					continue
+				}
+				// position of the first test of the error on this path
+				testPos := -1
+				idx := 0
+				pos := map[ssa.Instruction]int{}
+				p.Instrs(func(in ssa.Instruction) { pos[in] = idx; idx++ })
+				for _, a := range p.Atoms {
+					if a.If == nil || errVal == nil {
+						continue
+					}
+					if bo, ok := a.If.Cond.(*ssa.BinOp); ok && (bo.X == errVal || bo.Y == errVal) {
+						// the path must have established err == nil
+						isNil := (bo.Op == token.EQL) == a.Pos
+						if !isNil {
+							continue
+						}
+						if ip, ok := pos[a.If]; ok && (testPos < 0 || ip < testPos) {
+							testPos = ip
+						}
+					}
+				}
+				// uses of the RA value on this path: call arguments and dereferences
+				if raVal.Referrers() == nil {
+					continue
+				}
+				for _, u := range *raVal.Referrers() {
+					up, on := pos[u]
+					if !on {
+						continue
+					}
+					isUse := false
+					switch x := u.(type) {
+					case ssa.CallInstruction:
+						isUse = true
+						_ = x
+					case *ssa.FieldAddr, *ssa.Field, *ssa.UnOp:
+						isUse = true
+					}
+					if isUse && (testPos < 0 || up < testPos) {
+						bad = fmt.Sprintf("%s uses the RA at %s before its error is tested", c.fname(fn), c.pos(instrPos(u)))
+					}
+				}
+			}
+			c.R.Check(bad == "", "R-C17-6", c.fname(fn)+":ra-used-after-error-check", c.fname(fn), c.pos(g.Pos()), fmt.Sprintf("counterexample: %q", bad),
+				"the generated RA is passed on or dereferenced only on paths where the generation error was tested first", "a failure to generate the RA (interface not initialised yet, address lookup error) is followed by a nil dereference: the scrape or API request crashes")
+		}
+	}
+	c.R.Check(n >= 3, "R-C17-6", "module:ra-generation-sites", "", "", fmt.Sprintf("%d RA generation site(s)", n), ">= 3", "anchor-missing")
 }
